@@ -313,6 +313,8 @@ def owner(unit, f):
         return "C04" if f.kind in SAFETY_KINDS else "C03"
     if unit == "response_gen" and f.fn == "Response::generate":
         return "C15"
+    if unit == "multipart":
+        return "C20" if f.kind in SAFETY_KINDS else "C16"
     if f.kind == "precondition" and f.snippet.startswith("false@"):
         return "C13"
     return None
@@ -341,8 +343,29 @@ PROPS = {
         "assumptions": ["the serialise-then-parse round trip itself is not proved; it is exercised by the native falsifier (300 random multi-part and single-body responses per run)",
                         "Response::parse requires input of at most i32::MAX bytes (its byte counters are i32)"],
     },
+    "C16": {
+        "units": ["multipart"],
+        "level": "proof",
+        "falsifier": ["mpform"],
+        "case_prefixes": ["c16_"],
+        "counts": counts_for("C16"),
+        "samples": [
+            "FormMultipartData::parse_form_part_recursively / postcondition / the result is parse_rec(rest of the input, boundary bytes, first call?, parts so far) - the line-by-line reader as a recursive spec function",
+            "FormMultipartData::generate / postcondition / res@ == gen_spec(parts, boundary bytes); Err exactly for an empty list or a part without headers",
+            "theorem_multipart_roundtrip / parse_spec(gen_spec(ps, b), b) == Some(ps) for every non-empty list of well-formed parts and every boundary that does not occur in a header line or a body",
+            "theorem_multipart_no_opening_boundary, theorem_multipart_no_closing_boundary, theorem_multipart_parts_have_headers / rejection clauses over parse_spec",
+        ],
+        "assumptions": [
+            "round-trip domain (the theorem's preconditions): at least one part; every part has at least one header; header names and values are non-empty, hold no ASCII control character, no white space at either end, names hold no ':'; the boundary is non-empty and holds no CR / LF; the boundary bytes occur neither in a header line 'name: value' nor in a body. Bodies are arbitrary byte strings (any length, any bytes).",
+            "stated on the bytes rather than derived: the UTF-8 bytes of a header line hold no 0x0A (follows from 'no control character' for real UTF-8)",
+            "StringExt::filter_ascii_control_characters is assumed to be trim(remove ASCII control characters) (its closure argument is outside the extractor's subset); conformance-tested in the thorough tier",
+            "str::trim / split_once / String::from_utf8 / Cursor::read_until are the assumed std contracts of shims/core.rs and shims/cursor.rs; UTF-8 encode/decode facts are vstd's PROVED lemmas (vstd::utf8)",
+            "the boundary parameter as browsers send it (Content-Type: ...; boundary=X with '--X' / '--X--' delimiter lines): is_delim accepts these forms (proved postcondition of is_delimiter); FormMultipartData::extract_boundary is proved panic-free but its result is not specified (a quoted or parameter-followed boundary is returned verbatim)",
+            "the echo controller /form-multipart-enctype-post-method is not under contract; it is exercised by the e2e falsifier (C04 cases)",
+        ],
+    },
     "C20": {
-        "units": ["response_parse", "range_parse", "base64_decode", "request_parse"],
+        "units": ["response_parse", "range_parse", "base64_decode", "request_parse", "multipart"],
         "level": "proof",
         "falsifier": ["parsers"],
         "always_explore": ["parsers"],
@@ -353,7 +376,7 @@ PROPS = {
             "Range::parse_multipart_body_with_boundary / termination + no overflow / decreases rem(old(cursor)).len(); loop: rem(cursor).len() + (is_not_boundary ? 1 : 0)",
             "Base64::decode / every input returns Ok or Err (functional contract proved)",
         ],
-        "assumptions": ["entry points NOT yet under contract (listed so that the claim is not read as complete): JSON object/array parsers, FormMultipartData::parse, Header::parse_header, ContentDisposition::parse, config-file reader, UrlPath::extract_parts_from_pattern"],
+        "assumptions": ["entry points NOT yet under contract (listed so that the claim is not read as complete): JSON object/array parsers, ContentDisposition::parse, config-file reader, UrlPath::extract_parts_from_pattern"],
     },
     "C01": {
         "units": ["static", "controllers"],
